@@ -59,7 +59,8 @@ pub fn run_twin(seed: u64, r: &mut Report, stats: &mut crate::RunStats) {
     let mut prof = Profile::default();
     prof.collateral_w = [0, 1, 0];
     prof.extra_vamm_pct = 0;
-    prof.w_ops = [34, 12, 6, 8, 8, 5, 5, 12, 3, 1, 0];
+    prof.w_ops = [34, 12, 6, 8, 8, 5, 5, 12, 7, 1, 0];
+    prof.malformed_addr_pct = 50;
     prof.w_macro = [0, 3, 2, 1, 1, 0, 8, 1, 1, 1, 1];
     prof.macro_pct = 18;
     prof.steps = (40, 110);
